@@ -4,6 +4,8 @@ import json
 import subprocess
 import shutil
 
+FEATURE_LEG_PROPS = ["C01", "C02", "C03", "C04", "C05", "C06", "C07", "C09", "C10", "C11", "C13", "C14"]
+
 FEATURE_SETS = []
 for counting in ([], ["adhoccounting"], ["adhoccounting", "adhoccountmodels"]):
     for vl in ([], ["variablelist"]):
@@ -46,6 +48,30 @@ def run(pid, spec, tier, seed, merged, drv):
     if tier == "thorough" and not os.environ.get("VERIF_NO_SANITIZERS"):
         for kind, sub, shards, cases, extra in SANITIZER_PLAN.get(pid, []):
             sanitizer_leg(drv, merged, kind, sub, seed, shards, cases, extra)
+    if pid in FEATURE_LEG_PROPS:
+        # the property quantifies over inputs/histories, not configurations (that is C12), but large parts of
+        # the store code are feature-gated: run the same monitor on the two extreme builds as well
+        for fs in ([], ["adhoccounting", "adhoccountmodels", "variablelist", "frontend"]):
+            b = drv.build_mon(features=fs, tag=ftag(fs))
+            p2 = dict(params)
+            p2["cases"] = max(10, params.get("cases", 100) // 5)
+            p2["shards"] = 4
+            args = dict(params.get("args", {}))
+            if "large" in args:
+                args["large"] = max(1, int(args["large"]) // 4)
+            p2["args"] = args
+            drv.mon_leg(merged, b, pid, seed, tier, p2, leg="features[%s]" % ftag(fs))
+        drv.build_mon()
+    if pid == "C19":
+        # the streaming code sits next to feature-gated book-keeping: run the same monitor on the two
+        # frontend builds without ad-hoc counting as well (all 6 frontend builds are covered by C12)
+        for fs in (["frontend"], ["variablelist", "frontend"]):
+            b = drv.build_mon(features=fs, tag=ftag(fs))
+            p2 = dict(params)
+            p2["cases"] = max(10, params.get("cases", 100) // 4)
+            p2["shards"] = 4
+            drv.mon_leg(merged, b, pid, seed, tier, p2, leg="features[%s]" % ftag(fs))
+        drv.build_mon()
     if pid == "C14":
         # CLI export / import / never-overwrite, for both CLI builds whose import code differs
         for tag, feats in (("default", None), ("variablelist-only", ["variablelist"])):
